@@ -65,6 +65,9 @@ def main():
                     if c.get("exact"):
                         s = torch.tensor(1.0, dtype=dtype)
                     qx = quantize_activation(x, aq, s)
+                if c.get("layout") == "expanded" and len(lead) >= 1:
+                    # a broadcast activation: the first row repeated through expand() (stride 0 along the token dimension)
+                    qx = qx[..., :1, :].expand(*lead, inf) if len(lead) >= 1 else qx
                 xd = qx.dequantize().double() if isinstance(qx, QTensor) else qx.double()
                 wd = qw.dequantize().double()
                 ref = xd @ wd.t() + (b.double() if b is not None else 0)
@@ -116,6 +119,8 @@ def main():
                 aq = QT[c["aq"]]
                 qa = quantize_activation(a, aq, absmax_scale(a, aq)) if c["a_q"] else a
                 qb = quantize_activation(bb, aq, absmax_scale(bb, aq)) if c["b_q"] else bb
+                if c.get("layout") == "expanded":
+                    qa = qa[..., :1, :].expand(*sh_a)  # broadcast rows (stride 0)
                 ad = qa.dequantize().double() if isinstance(qa, QTensor) else qa.double()
                 bd = qb.dequantize().double() if isinstance(qb, QTensor) else qb.double()
                 ref = ad @ bd
